@@ -738,6 +738,11 @@ func (s *scripted) GenerateEnvelope(ctx context.Context, req *pf.GenerateEnvelop
 	if _, ok := s.edit("format-other"); ok {
 		spec.Format = otherFormat(req.SignatureEnvelopeType)
 	}
+	if _, ok := s.edit("format-other-echoed"); ok {
+		// the plugin answers in the format it prefers and says so
+		spec.Format = otherFormat(req.SignatureEnvelopeType)
+		echo = spec.Format
+	}
 	if e, ok := s.edit("echo-type-wrong"); ok {
 		echo = []string{otherFormat(req.SignatureEnvelopeType), "", strings.ToUpper(req.SignatureEnvelopeType), req.SignatureEnvelopeType + " "}[e.N%4]
 	}
